@@ -137,6 +137,8 @@ def check(ctx):
             elif len(ctx.samples) < 6:
                 ctx.sample({"target": t, "date": str(d), "regular: wage enters through": f1.path(t)})
     regime_cover(ctx, s, dates)
+    sibling_paths(ctx, s, dates)
+    both_regions(ctx, s, dates)
     from ._siblings import capped_multiplier_findings
 
     ctx.rule("S-cap", "the regular and the transition-zone copy of a contribution formula scale a rate parameter by the identical capped expression (otherwise the two regimes do not meet at the zone boundary)")
@@ -260,3 +262,165 @@ def regime_cover(ctx, s, dates):
             r = rules[2]
             ctx.violation("R-cover", "|".join(key), r.where, f"at {d} a wage with `{desc}` is neither geringfügig_beschäftigt nor in_gleitzone nor regulär_beschäftigt: rules keyed on regulär_beschäftigt (the health / care assessment base) treat it as no employment at all - contributions drop at exactly that wage")
     ctx.floor("R-cover", 20)
+
+
+# --------------------------------------------------------------------------- sibling agreement of the two regimes
+REGION_ONLY_REGULAR = {"wohnort_ost": "the east/west assessment ceiling only matters above the ceiling, far beyond the transition zone's upper limit"}
+
+
+def _param_paths(fnnode):
+    import ast
+
+    out = set()
+
+    def chain(e):
+        keys, b = [], e
+        while isinstance(b, ast.Subscript) and isinstance(b.slice, ast.Constant):
+            keys.append(str(b.slice.value))
+            b = b.value
+        return b, list(reversed(keys))
+
+    # locals bound once to a parameter sub-dict (`params = x_params["a"]["b"]`) are prefixes
+    alias, cnt = {}, {}
+    for st in ast.walk(fnnode):
+        if isinstance(st, ast.Assign) and len(st.targets) == 1 and isinstance(st.targets[0], ast.Name):
+            cnt[st.targets[0].id] = cnt.get(st.targets[0].id, 0) + 1
+            b, keys = chain(st.value)
+            if isinstance(b, ast.Name) and b.id.endswith("_params") and isinstance(st.value, ast.Subscript):
+                alias[st.targets[0].id] = b.id + "/" + "/".join(keys)
+    alias = {k: v for k, v in alias.items() if cnt[k] == 1}
+    for e in ast.walk(fnnode):
+        if isinstance(e, ast.Subscript):
+            b, keys = chain(e)
+            if isinstance(b, ast.Name) and b.id.endswith("_params") and keys:
+                out.add(b.id + "/" + "/".join(keys))
+            elif isinstance(b, ast.Name) and b.id in alias and keys:
+                out.add(alias[b.id] + "/" + "/".join(keys))
+    return {p for p in out if not any(q != p and q.startswith(p + "/") for q in out)}
+
+
+def _closure(dag, roots):
+    seen, params, inputs = set(), set(), set()
+    todo = list(roots)
+    while todo:
+        n = todo.pop()
+        if n in seen:
+            continue
+        seen.add(n)
+        node = dag.nodes.get(n)
+        if node is None:
+            inputs.add(n)
+        elif node.kind == "rule":
+            params |= _param_paths(node.rule.node)
+            todo += [a for a in node.rule.argnames if not a.endswith("_params")]
+        else:
+            todo += list(node.args or [])
+            if node.spec and node.spec.get("source_col"):
+                todo.append(node.spec["source_col"])
+    return params, inputs
+
+
+def sibling_paths(ctx, s, dates):
+    """S-par: the employee contribution selects between the transition-zone formula (under in_gleitzone) and the
+    regular one.  For the two to meet at the upper zone boundary they must be built from the same rates and the
+    same personal characteristics: every rate parameter and every input column the regular branch reads
+    (transitively) is also read by the transition-zone branch, at every date."""
+    import ast
+
+    from staticlib.ordersem import NotExpressible, function_as_expression
+
+    ctx.rule("S-par", "at every date, every contribution-rate parameter and every input column that the regular-employment branch of an employee contribution depends on is also read by its transition-zone branch (region of residence excepted)")
+    seen = set()
+    for d in dates:
+        dag = s.dag(d)
+        for t in TARGETS:
+            r = dag.nodes[t].rule
+            try:
+                e = function_as_expression(r.node)
+            except NotExpressible as ex:
+                raise AnalysisError(f"{r.qual} is not an if/else selection of contribution formulas ({ex}); S-par needs a re-read") from ex
+            br = {"mid": set(), "reg": set()}
+            pp = {"mid": set(), "reg": set()}
+
+            def leaf(x, k):
+                if k in br:
+                    br[k] |= {y.id for y in ast.walk(x) if isinstance(y, ast.Name) and y.id in r.argnames and not y.id.endswith("_params")}
+                    pp[k] |= _param_paths(x)
+
+            def walk(x, under_gleit=None):
+                if isinstance(x, ast.IfExp):
+                    tn = {y.id for y in ast.walk(x.test) if isinstance(y, ast.Name)}
+                    neg = isinstance(x.test, ast.UnaryOp) and isinstance(x.test.op, ast.Not)
+                    if tn == {"in_gleitzone"}:
+                        a, b = (x.orelse, x.body) if neg else (x.body, x.orelse)
+                        walk(a, True)
+                        walk(b, False)
+                    else:
+                        walk(x.body, under_gleit)
+                        walk(x.orelse, under_gleit)
+                elif under_gleit is True:
+                    leaf(x, "mid")
+                elif under_gleit is False:
+                    leaf(x, "reg")
+
+            walk(e)
+            if not br["mid"] and not pp["mid"]:
+                continue  # no transition-zone branch at this date
+            # constants such as 0.0 for marginal employment end up in 'reg' leaves without names: harmless
+            # terms present in both branches (e.g. the pensioner's contribution) say nothing about the two formulas
+            common = br["mid"] & br["reg"]
+            pm, im = _closure(dag, br["mid"] - common)
+            pr, ir = _closure(dag, br["reg"] - common)
+            pm |= pp["mid"]
+            pr |= pp["reg"]
+            rates_missing = sorted(x for x in pr - pm if "/beitr_satz" in x)
+            inputs_missing = sorted(x for x in ir - im if x not in REGION_ONLY_REGULAR)
+            key = (r.qual, tuple(rates_missing), tuple(inputs_missing))
+            ctx.ob("S-par", ok=not rates_missing and not inputs_missing, distinct=(r.qual, str(d)))
+            if (rates_missing or inputs_missing) and key not in seen:
+                seen.add(key)
+                what = []
+                if rates_missing:
+                    what.append("the rate parameter(s) " + ", ".join(x.replace("/", ".") for x in rates_missing))
+                if inputs_missing:
+                    what.append("the input column(s) " + ", ".join(inputs_missing))
+                ctx.violation("S-par", f"{r.qual}|{'+'.join(rates_missing + inputs_missing)}", r.where, f"at {d} the regular branch of {t} depends on {' and '.join(what)}, the transition-zone branch does not: the two formulas cannot meet at the upper zone boundary for persons for whom that matters (a step in the contribution at the boundary wage)")
+    ctx.floor("S-par", 60)
+
+
+def both_regions(ctx, s, dates):
+    """OW: expected count zero.  A rule that reads the `west` value of a parameter whose `ost` value differs at that
+    date (or the other way round) without reading the other side applies one region's ceiling / value to everybody."""
+    import ast
+
+    ctx.rule("OW", "a rule that reads the west (east) value of a parameter also reads the east (west) value whenever the two differ at that date")
+    nrules = 0
+    seen = set()
+    for d in dates:
+        dag = s.dag(d)
+        params, _, _ = s.em.params(d)
+        for n, node in dag.nodes.items():
+            if node.kind != "rule":
+                continue
+            nrules += 1
+            sides = {}
+            for p in _param_paths(node.rule.node):
+                parts = p.split("/")
+                if parts[-1] in ("ost", "west"):
+                    sides.setdefault(tuple(parts[:-1]), set()).add(parts[-1])
+            for parent, ss in sides.items():
+                if len(ss) == 2:
+                    continue
+                v = params.get(parent[0][: -len("_params")])
+                try:
+                    for k in parent[1:]:
+                        v = v[k] if k in v else v[int(k)]
+                    differ = isinstance(v, dict) and "ost" in v and "west" in v and v["ost"] != v["west"]
+                except Exception:  # noqa: BLE001
+                    differ = False
+                if differ and (node.rule.qual, parent) not in seen:
+                    seen.add((node.rule.qual, parent))
+                    ctx.ob("OW", ok=False, distinct=(node.rule.qual, parent))
+                    only = next(iter(ss))
+                    ctx.violation("OW", f"{node.rule.qual}|{'/'.join(parent)}|{only}", node.rule.where, f"at {d} {node.rule.name} reads only the `{only}` value of {'.'.join(parent)} although east and west differ ({v['ost']} vs {v['west']}): the {'western' if only == 'west' else 'eastern'} value is applied to residents of both regions")
+    ctx.ob("OW", ok=True, distinct="rules scanned", n=max(nrules, 1))
